@@ -15,8 +15,10 @@ from typing import Any, Dict, List, Optional
 
 VERIF_DIR = os.path.dirname(os.path.dirname(os.path.abspath(__file__)))
 KNOWN_FILE = os.path.join(VERIF_DIR, "known_findings.json")
-EVIDENCE_DIR = os.path.join(VERIF_DIR, "evidence")
-OUT_DIR = os.path.join(VERIF_DIR, "out")
+# maintainer tools that run many trees in parallel (tools/regress_par.py) redirect what a run writes; registered commands never set it
+_SCRATCH = os.environ.get("VERIF_SCRATCH")
+EVIDENCE_DIR = os.path.join(_SCRATCH or VERIF_DIR, "evidence")
+OUT_DIR = os.path.join(_SCRATCH or VERIF_DIR, "out")
 
 
 def _squash(s: str) -> str:
